@@ -246,13 +246,17 @@ def run_tie(pid, families, tier, seed, mharness, extra_ops_files=()):
     restarts = 0
     CHUNK = 4000     # ops handed to one harness process: a death forfeits (and re-sends) at most the chunk's remainder
     pos = 0
+    # generated programs may write files (tee > $a.".tmp"): the harness runs in a scratch directory of its own
+    scratch = os.path.join(BUILD, "tie", f"cwd-{pid}")
+    shutil.rmtree(scratch, ignore_errors=True)
+    os.makedirs(scratch)
     with open(casesf, "w") as fout:
         while pos < len(remaining):
             chunk = remaining[pos:pos + CHUNK]
             hung = False
             try:
                 p = subprocess.run([mharness, "eval"], input="\n".join(chunk) + "\n", stdout=subprocess.PIPE,
-                                   stderr=subprocess.PIPE, env=env, text=True, errors="replace", timeout=900)
+                                   stderr=subprocess.PIPE, env=env, text=True, errors="replace", timeout=900, cwd=scratch)
             except subprocess.TimeoutExpired as te:
                 # an op that never returns inside the real code: everything printed before it is kept
                 hung = True
@@ -286,6 +290,7 @@ def run_tie(pid, families, tier, seed, mharness, extra_ops_files=()):
             restarts += 1
             if restarts > 40000:
                 raise RuntimeError("too many harness restarts")
+    shutil.rmtree(scratch, ignore_errors=True)
     mdriver = os.path.join(LEAN, ".lake", "build", "bin", "mdriver")
     with open(casesf) as fin, open(verdf, "w") as fout:
         p = subprocess.run([mdriver], stdin=fin, stdout=fout, stderr=subprocess.PIPE, text=True, errors="replace")
